@@ -212,14 +212,14 @@ def cfg_line_for(flags, asfound=()):
 
 # ------------------------------------------------------------------------------------------ shrink
 
-def shrink_mismatch(binpath, driver, work, ops_lines, cfg, first_bad, budget=60):
+def shrink_mismatch(binpath, driver, work, ops_lines, cfg, first_bad, budget=60, xargs=None):
     """delta-debug an op prefix that still shows a mismatch (ops may be stateful)."""
     lines = [l for l in ops_lines[:first_bad] if l.strip() and not l.startswith("cfg")]
     def bad(cand):
         p = os.path.join(work, "shrink.ops")
         with open(p, "w") as f:
             f.write(cfg + "\n" + "\n".join(cand) + "\n")
-        rc, o, ops, impl, meta = run_harness(binpath, work, "shrink", 0, "quick", replay=p, timeout=120)
+        rc, o, ops, impl, meta = run_harness(binpath, work, "shrink", 0, "quick", replay=p, timeout=120, extra_args=xargs)
         if rc != 0:
             return True  # crashes the harness: keep
         rc2, model = run_driver(driver, ops)
@@ -271,7 +271,8 @@ def run_engine(spec, eng, tier, seed, work, rep, known, cov):
     """one engine = one Go harness + one Lean driver. Returns nothing; fills rep/cov."""
     name = eng["harness"]
     flags = eng.get("flags", [])
-    rc, o, binpath = go_build(name, work)
+    rc, o, binpath = go_build(eng.get("cmd", name), work)
+    xargs = eng.get("args")
     if rc != 0:
         cov["harness_build_failed"].append(name)
         rep.violation({"kind": "harness-does-not-build", "engine": name,
@@ -284,7 +285,7 @@ def run_engine(spec, eng, tier, seed, work, rep, known, cov):
     def one(sh_i):
         tag = f"{name}.{sh_i}"
         s = seed * 1000 + sh_i
-        rc, o, ops, impl, meta = run_harness(binpath, work, tag, s, tier, timeout=to)
+        rc, o, ops, impl, meta = run_harness(binpath, work, tag, s, tier, timeout=to, extra_args=xargs)
         return sh_i, rc, o, ops, impl, meta
     with concurrent.futures.ThreadPoolExecutor(max_workers=min(16, shards)) as ex:
         results = list(ex.map(one, range(shards)))
@@ -353,7 +354,7 @@ def run_engine(spec, eng, tier, seed, work, rep, known, cov):
                 wp = os.path.join(work, f"{name}.witness.ops")
                 with open(wp, "w") as f:
                     f.write(cfg_line_for(flags, matched) + "\n" + "\n".join(wit) + "\n")
-                rcw, ow, wops, wimpl, wmeta = run_harness(binpath, work, f"{name}.wit", 0, "quick", replay=wp, timeout=300)
+                rcw, ow, wops, wimpl, wmeta = run_harness(binpath, work, f"{name}.wit", 0, "quick", replay=wp, timeout=300, extra_args=xargs)
                 wimpl_l = read_lines(wimpl) if rcw == 0 else []
                 confirmed = rcw == 0 and [l.rstrip() for l in wimpl_l[1:len(wit) + 1]] == fl.get("witness_impl_asFound", [])
                 k = known_match(known, spec["id"], fl["class"])
@@ -372,7 +373,7 @@ def run_engine(spec, eng, tier, seed, work, rep, known, cov):
             if any(f for f in (meta.get("failures") or []) if not known_match(known, spec["id"], f["class"])):
                 continue  # already reported with a failing input
             first = d[0]["line"]
-            small, ok = shrink_mismatch(binpath, eng["driver"], work, ops, cfg0, first)
+            small, ok = shrink_mismatch(binpath, eng["driver"], work, ops, cfg0, first, xargs=xargs)
             rep.violation({"kind": "correspondence-broken", "engine": name,
                            "what": "model and implementation answer differently and no property failure was found "
                                    "on the implementation; the theorems of Props/%s.lean are no longer tied to this code" % spec["id"],
